@@ -2269,4 +2269,7 @@ class Transaction(object):
         self.fee = fee
         for o in outputs_to_delete:
             self.outputs.remove(o)
+        if outputs_to_delete:
+            for n, o in enumerate(self.outputs):
+                o.output_n = n
         self.sign_and_update()
